@@ -249,6 +249,55 @@ pub fn compare(src: &str, a: &Instance, b: &Instance) -> Option<(String, String)
     }
 }
 
+/// A sibling of `src`: the same program with the constructor / destructor lists of its type
+/// declarations rotated (same type and xtor names at different positions). Compiling it earlier
+/// in the same process must not influence the compilation of `src`.
+pub fn perturb_xtor_order(src: &str) -> String {
+    let mut out = String::new();
+    for line in src.lines() {
+        let is_decl = line.starts_with("data ") || line.starts_with("codata ");
+        let (Some(a), Some(b)) = (line.find('{'), line.rfind('}')) else {
+            out.push_str(line);
+            out.push('\n');
+            continue;
+        };
+        if !is_decl || a >= b {
+            out.push_str(line);
+            out.push('\n');
+            continue;
+        }
+        let inner = &line[a + 1..b];
+        let mut parts: Vec<String> = Vec::new();
+        let mut depth = 0;
+        let mut cur = String::new();
+        for ch in inner.chars() {
+            match ch {
+                '(' | '[' => {
+                    depth += 1;
+                    cur.push(ch);
+                }
+                ')' | ']' => {
+                    depth -= 1;
+                    cur.push(ch);
+                }
+                ',' if depth == 0 => {
+                    parts.push(cur.trim().to_string());
+                    cur.clear();
+                }
+                _ => cur.push(ch),
+            }
+        }
+        if !cur.trim().is_empty() {
+            parts.push(cur.trim().to_string());
+        }
+        if parts.len() > 1 {
+            parts.rotate_left(1);
+        }
+        out.push_str(&format!("{}{{ {} }}{}\n", &line[..a], parts.join(", "), &line[b + 1..]));
+    }
+    out
+}
+
 pub fn corpus() -> Vec<(String, String)> {
     let mut v = Vec::new();
     for sub in ["examples", "testsuite/end_to_end", "testsuite/success_check", "benchmarks"] {
@@ -388,23 +437,6 @@ pub fn kworker(tier: &str, seed: u64, w: u64, n: u64) -> i32 {
     let stdout = std::io::stdout();
     let rounds: u64 = if tier == "thorough" { 6 } else { 1 };
     let mut distinct: BTreeSet<u64> = BTreeSet::new();
-    // every worker renders the whole corpus once under its own keys/environment/history
-    for (pi, (name, src)) in progs.iter().enumerate() {
-        let mut rng = Rng::keyed(seed, w * 1_000_003 + pi as u64, "k-corpus");
-        let inst = Instance { via_driver: false, keys: rng.next() | 1, history: vec![], repeat: 0 };
-        sum.instances += 1;
-        sum.compilations += 1;
-        match run_instance(src, &inst) {
-            Ok(r) => {
-                let hs: Vec<u64> = r.iter().enumerate().map(|(s, t)| hash_str(&canon(s, t))).collect();
-                sum.corpus_hashes.insert(name.clone(), hs);
-            }
-            Err(e) => {
-                sum.rejected_by_checker += 1;
-                sum.corpus_hashes.insert(name.clone(), vec![hash_str(&e)]);
-            }
-        }
-    }
     // seeded histories, split over the workers
     for round in 0..rounds {
         for (pi, (name, src)) in progs.iter().enumerate() {
@@ -419,6 +451,10 @@ pub fn kworker(tier: &str, seed: u64, w: u64, n: u64) -> i32 {
                 for _ in 0..h {
                     let (_, s) = &progs[rng.below(progs.len())];
                     history.push(Step::Compile(s.clone()));
+                }
+                // a sibling with permuted constructor order compiled earlier in the same process
+                if rng.pct(35) {
+                    history.push(Step::Compile(perturb_xtor_order(src)));
                 }
                 Instance { via_driver: rng.pct(25), keys: rng.next() | 1, history, repeat: [0, 0, 1, 2][rng.below(4)] }
             };
@@ -448,6 +484,25 @@ pub fn kworker(tier: &str, seed: u64, w: u64, n: u64) -> i32 {
                 };
                 let mut o = stdout.lock();
                 let _ = writeln!(o, "{}", serde_json::to_string(&serde_json::json!({"found": rp})).unwrap());
+            }
+        }
+    }
+    // at the end every worker renders the whole corpus once more under its own keys and
+    // environment, now with everything this process compiled before as history (process-global
+    // state such as counters or caches); the hashes are compared across worker processes
+    for (pi, (name, src)) in progs.iter().enumerate() {
+        let mut rng = Rng::keyed(seed, w * 1_000_003 + pi as u64, "k-corpus");
+        let inst = Instance { via_driver: false, keys: rng.next() | 1, history: vec![], repeat: 0 };
+        sum.instances += 1;
+        sum.compilations += 1;
+        match run_instance(src, &inst) {
+            Ok(r) => {
+                let hs: Vec<u64> = r.iter().enumerate().map(|(s, t)| hash_str(&canon(s, t))).collect();
+                sum.corpus_hashes.insert(name.clone(), hs);
+            }
+            Err(e) => {
+                sum.rejected_by_checker += 1;
+                sum.corpus_hashes.insert(name.clone(), vec![hash_str(&e)]);
             }
         }
     }
